@@ -9,7 +9,8 @@ BASE = "cd /repo && /venv/bin/python -m pytest -ra -q -p no:cacheprovider --time
 COMMON_NOTE = ("Trusted base: the pyvc VC generator itself (symbolic executor of the Python subset, DESIGN.md 2.3-2.7 "
                "and Appendix A), its stdlib models (cross-checked against CPython by tools/selftest.py), the engine "
                "meta-rules for comprehension extensionality and hypothesis instantiation, z3 5.1 / cvc5 1.0.3 / z3 "
-               "4.8.12. Types of parameters are preconditions; int is mathematical; recursion depth unbounded. ")
+               "4.8.12 (a z3 unsoundness was found and is worked around, DESIGN.md 8.3; z3's unsat verdicts are "
+               "cross-checked with cvc5: 10 % sample in the quick tier, all obligations in the thorough tier). Types of parameters are preconditions; int is mathematical; recursion depth unbounded. ")
 
 GEN_NOTE = (COMMON_NOTE + "BOUND: model/configuration STRUCTURE from the shape corpus specs/shapes.py (<= 3 ports, <= 5 events "
             "per interface, <= 2 parameters per event, the listed configuration kinds incl. rejected ones); every name, "
@@ -17,9 +18,12 @@ GEN_NOTE = (COMMON_NOTE + "BOUND: model/configuration STRUCTURE from the shape c
             "for all contents of its shape. Trusted: the run-time meaning of each emitted C++ statement kind (idiom table "
             "of DESIGN.md section 3) and the constant C++ text of the support headers; model validity (identifiers, "
             "distinct names per scope, MV-1 no line boundary inside model strings). ")
-GEN_TECH = ("contract-based deductive verification on a bounded structure corpus: symbolic execution of the real "
-            "Builder.build cone with symbolic string contents, generated text compared with the wiring specification "
-            "specs/wiring.py; z3 strings; native replay of counter-models")
+GEN_TECH = ("contract-based deductive verification: (1) unbounded function contracts - the generator functions that "
+            "loop over events / parameters / ports refine plain-Python specifications (specs/wiring_unbounded.py) for any "
+            "sizes, callees by their contracts; (2) the composition on a bounded structure corpus: symbolic execution of "
+            "the real Builder.build cone with symbolic string contents, generated text compared with the wiring "
+            "specification specs/wiring.py; z3 sequences/strings, cvc5 cross-check; native replay of counter-models")
+UNB = " Unbounded part (any number of events / parameters / ports, any names; DESIGN.md 8.6): "
 PARSER_NOTE = (COMMON_NOTE + "BOUND: document STRUCTURE from specs/docs.py (and, for C15, every single-point malformation of "
                "it); all leaves symbolic. orjson.loads is outside the contract. ")
 
@@ -32,10 +36,10 @@ CLAIMS = {
     'C01': gen("For every string content of every shape: the constructor body (and the source file) contains exactly one "
                "routing statement per (exposed MTS port, event) - the statement of the wiring relation W rendered by R - "
                "none missing, none extra, none duplicated; boundary members are initialised from the same-named port. "
-               "Bounded in structure, unbounded in content: reported as 'other', not as a proof for all models.", '3/C01'),
+               "Bounded in structure, unbounded in content: reported as 'other', not as a proof for all models." + UNB + "reroute_in_events, reroute_out_events, reroute_multiclient_out_events, stdref_provides_out_events, stdref_requires_in_events: one handler / reference per event of the right direction, in model order, to the same-named event of the same-named port, parameters in declared order, out/inout by reference.", '3/C01'),
     'C02': gen("Per shape, for all contents: route kind follows the configured semantics; accessor name/type/body/member "
                "are Sts<>/wrapped port resp. Mts<>/boundary member; STS ports get no constructor statement; posted "
-               "closures capture exactly the in-parameters by value.", '3/C02'),
+               "closures capture exactly the in-parameters by value." + UNB + "reroute_in_events (dzn::shell on the dispatcher, result returned), reroute_out_events (posted, in-parameters copied into the closure), create_cpp_portitf (strict-port type, target object and boundary member by semantics / direction / multi-client, any names and namespace depths).", '3/C02'),
     'C03': dict(category='proof',
                 text="Proof: every obligation generated from the current sources of PortSelect / PortsSemanticsCfg / "
                      "PortsCfg (constructors and match, all 4x4 selection kinds, arbitrary string sets of any size, loop "
@@ -50,33 +54,42 @@ CLAIMS = {
     'C04': gen("Per shape, for all contents: InitializePort<Port> consists of exactly the claim / release / other-event "
                "statements of W for the events NAMED IN THE CONFIGURATION, the claim compares with the configured reply "
                "and selects only then, multi-client out-events go through CurrentClient(); invalid multi-client settings "
-               "are rejected with MultiClientCfgError. The C++ selection state machine itself is trusted text.", '3/C04'),
+               "are rejected with MultiClientCfgError. The C++ selection state machine itself is trusted text." + UNB + "reroute_multiclient_out_events, initialize_port_impl with its claim / release handlers (any number of in-events and parameters), check_multiclient_cfg (any interface, any settings, any lookup result: the configured events and granting reply or MultiClientCfgError).", '3/C04'),
     'C05': dict(category='other',
-                text="For every leaf content of every document of the corpus, process() returns exactly expected(D): one "
-                     "entry per declaration incl. nested interface types, source order, fully qualified names, all details; "
-                     "unknown classes / non-dict elements skipped. Bounded in document structure, unbounded in content.",
-                note=PARSER_NOTE, technique="contract-based deductive verification on a bounded document corpus: symbolic "
-                     "execution of the real json_ast module, result compared with the inverse of the JSON rendering",
+                text="(1) Unbounded (DESIGN.md 8.7): for WELL-FORMED typed JSON documents of any size and any nesting of "
+                     "namespaces, all 29 element parsers, DznJsonAst.parse_element (recursion by contract, structural "
+                     "decrease) and DznJsonAst.process return exactly the declarations of specs/parse_spec.py: one entry "
+                     "per declaration incl. nested interface types, source order, fully qualified names, all details; "
+                     "unknown classes / non-dict elements skipped. (2) For every leaf content of every document of the "
+                     "corpus, process() returns exactly expected(D) (independent second specification). Reported as "
+                     "'other' because the typed-JSON model (exact key sets, JSON types per field) is an assumption about "
+                     "the input, stated in the evidence.",
+                note=PARSER_NOTE + "Well-formedness precondition of part (1): legal direction words, scope names of >= 1 "
+                     "identifiers, injected? absent or 'injected', out-event rule, enum/subint items carry their payload. "
+                     "Callee by contract: NamespaceTree.fqn_member_name (C14).",
+                technique="contract-based deductive verification: refinement of an executable ghost specification on "
+                          "typed symbolic JSON (z3 datatypes, recursive through Seq), recursion by contract; plus symbolic "
+                          "execution on a bounded document corpus; z3, cvc5 cross-check",
                 ref='3/C05'),
     'C07': gen("Per shape, for all names: port interface types and parameter type texts are those of the declaration on "
                "the scope chain of the referring scope (decoys in unrelated namespaces never used); missing, ambiguous, "
                "shadowed-by-another-kind and wrong-kind lookups fail with FindError/MultiClientCfgError. The unbounded "
-               "lookup contract itself is C14.", '3/C07'),
+               "lookup contract itself is C14." + UNB + "the reroute functions type every parameter by ghost.extern_of(type name, interface fqn) - the lookup from the interface's own scope, whose result set is C14's proved contract.", '3/C07'),
     'C08': gen("Per shape: content hash == MD5 hex digest of the UTF-8 contents (opaque pure functions); the files are "
                "identical under different set-iteration oracles (2-safety, quick: 2 orders, thorough: all permutations "
                "of <= 3 elements); no write to module-level state (frame). Native corpus adds runs under different "
                "PYTHONHASHSEED.", '3/C08'),
     'C09': gen("Per shape, both origins: facility members and their order, facility part of the member-initialiser list, "
                "locator parameter/accessor presence, FacilitiesCheck conditions, header declaration order facilities < "
-               "wrapped component < boundary ports.", '3/C09'),
+               "wrapped component < boundary ports." + UNB + "create_facilities and create_facilities_check_fn for both origins and any shell name.", '3/C09'),
     'C10': gen("Per shape: FinalConstruct body == FinalConstruct() of every multi-client port, check_bindings() of every "
                "other exposed port and of the wrapped component, parent recorded; plus C01's constructor statements (an "
-               "unbound component event makes final construction fail).", '3/C10'),
+               "unbound component event makes final construction fail)." + UNB + "create_final_construct_fn for any number of provides / requires ports; create_cpp_portitf (the accessor target that is checked is the object handed out).", '3/C10'),
     'C12': gen("Per shape: no object reachable from the configuration / parsed model and no module-level object is "
                "written during the build (every mutation site is checked by the executor on every path); support files "
                "equal their stand-alone generation.", '3/C12'),
     'C13': gen("Per shape: valid inputs return the 8 files with the specified names; each invalid shape is rejected with "
-               "the specified library error type; no builtin/internal exception type escapes on any path.", '3/C13'),
+               "the specified library error type; no builtin/internal exception type escapes on any path." + UNB + "check_multiclient_cfg for any interface / settings / lookup result: a fixture or MultiClientCfgError, never an internal error.", '3/C13'),
     'C14': dict(category='proof',
                 text="Proof, unbounded: NamespaceIds invariant, + / += / str, notation round trips, NamespaceTree.fqn "
                      "(recursion by contract), scope_resolution_order (while-loop invariant, frame), find_fqn == lookup "
@@ -88,12 +101,20 @@ CLAIMS = {
                           "invariant, comprehension extensionality, exists-atoms, z3 sequences/strings",
                 ref='3/C14'),
     'C15': dict(category='other',
-                text="Every single-point malformation of the corpus documents (key deleted / value of every other JSON "
+                text="(1) Unbounded (DESIGN.md 8.7): for ANY JSON value (null / bool / number / string / list / object of "
+                     "arbitrary content, size and nesting) every parser function, DznJsonAst.parse_element (recursion by "
+                     "contract) and DznJsonAst.process return or raise DznJsonError / NamespaceIdsTypeError - no path "
+                     "ends in another exception; parse_event refuses exactly the out events with a reply value or an "
+                     "out parameter (events of any size). (2) Every single-point malformation of the corpus documents (key deleted / value of every other JSON "
                      "kind / class tag changed / ids emptied / non-identifier / junk lists), with symbolic replacement "
                      "contents: process() returns or raises DznJsonError / NamespaceIdsTypeError on every path; out "
                      "events with a reply value or an out parameter are refused.",
-                note=PARSER_NOTE, technique="contract-based deductive verification on a bounded corpus: exhaustive "
-                     "single-point malformations, symbolic execution of the real parser, only_raises obligations",
+                note=PARSER_NOTE + "Part (1): JSON objects are symbolic dicts (key set and values uninterpreted functions "
+                     "of the object), a float is represented by one value (the parser only tests types), callees by the "
+                     "contract under proof.",
+                technique="contract-based deductive verification: only_raises contracts over a generic symbolic JSON "
+                          "value (modular, callees by contract, recursion by contract); plus exhaustive single-point "
+                          "malformations of a bounded corpus; z3, cvc5 cross-check",
                 ref='3/C15'),
     'C16': dict(category='other',
                 text="Per document: processing again gives an equal result, the earlier result and the loaded document "
